@@ -30,6 +30,23 @@ class Opaque:
     def __repr__(self) -> str:
         return "<opaque>"
 
+    def attr(self, name: str) -> Any:
+        return Opaque()
+
+
+class OpaqueWithConstants(Opaque):
+    """`self` of a method: nothing is known of it except the class-level constants that can be folded from the source"""
+
+    def __init__(self, lookup: Callable[[str], Any]):
+        self._lookup = lookup
+
+    def attr(self, name: str) -> Any:
+        try:
+            v = self._lookup(name)
+        except Exception:
+            return Opaque()
+        return v if isinstance(v, (dict, set, frozenset, tuple, list, str, int)) else Opaque()
+
 
 class Tok:
     __slots__ = ("type", "value")
@@ -113,7 +130,7 @@ class Run:
             if isinstance(base, dict) and e.attr in base:
                 return base[e.attr]
             if isinstance(base, Opaque):
-                return Opaque()
+                return base.attr(e.attr)
             raise Unsupported(f"attribute {norm(e)}")
         if isinstance(e, ast.Compare) and len(e.ops) == 1:
             l, r = self.ev(e.left), self.ev(e.comparators[0])
